@@ -366,6 +366,9 @@ package raft
 //@ ensures cu.Processed > 0 ==> l.processed == cu.Processed && cu.Processed >= old(l.processed) && cu.Processed <= l.committed
 //@ ensures cu.Processed == 0 ==> l.processed == old(l.processed)
 //@ ensures cu.LastApplied > 0 ==> cu.LastApplied <= l.processed
+// the in-memory window is released only up to what the state machine has ACKNOWLEDGED as applied
+// (LastApplied), never up to what was merely handed out for apply
+//@ ensures l.inmem.markerIndex <= max(old(l.inmem.markerIndex), cu.LastApplied + 1)
 //@ ensures l.committed == old(l.committed)
 //@ ensures l.inmem.markerIndex + len(l.inmem.entries) == old(l.inmem.markerIndex + len(l.inmem.entries))
 //@ ensures forall i int :: l.inmem.markerIndex <= i && i < l.inmem.markerIndex + len(l.inmem.entries) ==> l.termRaw(i) == old(l.termRaw(i))
@@ -800,6 +803,36 @@ package raft
 //@ func makeWitnessSnapshot [C18]
 //@ ensures result.Witness && !result.Dummy && result.FileSize == 0 && len(result.Files) == 0 && result.Index == snapshot.Index && result.Term == snapshot.Term
 
+// C18: whatever kind of snapshot the leader holds (a full one, or the dummy of an on-disk state
+// machine), the InstallSnapshot sent to a WITNESS is a witness snapshot: marked Witness, not Dummy, and
+// carrying no file -- a witness never receives (or is streamed) user state
+//@ func (l *entryLog) snapshot [C18]
+//@ trusted returns the most recent snapshot record (in-memory one if present, else the log store's)
+//@ func (r *raft) makeInstallSnapshotMessage [C18]
+//@ noframe
+//@ nobounds
+//@ requires r.log != nil && m != nil
+//@ modifies *m
+//@ ensures to in r.witnesses ==> m.Snapshot.Witness && !m.Snapshot.Dummy && m.Snapshot.FileSize == 0 && len(m.Snapshot.Files) == 0
+//@ ensures m.To == to && m.Type == pb.InstallSnapshot && result == m.Snapshot.Index
+
+// C18/C07: a leader that applies its own removal steps down at once -- also while a leadership transfer
+// is pending; it never keeps leading a shard it is no longer a member of
+//@ func (r *raft) deleteRemote [C18]
+//@ trusted deletes the replica from remotes (map delete)
+//@ modifies entries(r.remotes)
+//@ func (r *raft) deleteNonVoting [C18]
+//@ trusted deletes the replica from nonVotings (map delete)
+//@ modifies entries(r.nonVotings)
+//@ func (r *raft) deleteWitness [C18]
+//@ trusted deletes the replica from witnesses (map delete)
+//@ modifies entries(r.witnesses)
+//@ func (r *raft) removeNode [C18 C07]
+//@ noframe
+//@ nobounds
+//@ requires r.wf() && r.rl != nil && r.electionTimeout > 0 && r.term > 0
+//@ ensures replicaID == r.replicaID ==> r.state != leader
+
 // admission of a ReadIndex request on the leader
 //@ func (r *raft) handleLeaderReadIndex [C06 C18]
 //@ noframe
@@ -844,7 +877,7 @@ package raft
 
 // L1 (log matching on the follower): entries are appended only after the (index, term) check,
 // the acknowledged and committed index never exceed what this message verified.
-//@ func (r *raft) handleReplicateMessage [C02 C19]
+//@ func (r *raft) handleReplicateMessage [C02 C19 C03]
 //@ noframe
 //@ requires r.wf()
 //@ requires len(m.Entries) > 0 ==> consecutive(m.Entries) && m.Entries[0].Index == m.LogIndex + 1 && m.LogIndex < MaxUint64
